@@ -10,9 +10,10 @@ A check =
 import json
 import multiprocessing
 import os
+import re
 import time
 
-from . import core_model, core_real, core_replay, evidence, findings, tlc
+from . import tlaval, core_model, core_real, core_replay, evidence, findings, tlc
 
 VERIF = os.path.dirname(os.path.dirname(os.path.abspath(__file__)))
 
@@ -116,6 +117,106 @@ def graph_replay(name, progs, plans, alphabet, k, extra_defs='', procs=None, fix
             'generated': res.generated}
 
 
+# ---- deep random behaviours: tlc -simulate, every behaviour replayed ----------------------------------------
+_SIM_HEAD = re.compile(r'^\\\* <(.*?) line \d+, col \d+ to line \d+, col \d+ of module \w+>\s*$')
+
+
+def _parse_sim_file(path):
+    """one behaviour written by `tlc -simulate file=...`: -> [(action label, state dict)]"""
+    out, label, buf = [], None, None
+    with open(path) as fh:
+        for line in fh:
+            m = _SIM_HEAD.match(line)
+            if m:
+                if buf is not None:
+                    out.append((label, tlaval.parse_state(''.join(buf))))
+                label, buf = m.group(1), None
+                continue
+            if line.startswith('STATE_'):
+                buf = []
+                continue
+            if line.startswith('====') or line.startswith('----'):
+                continue
+            if buf is not None:
+                buf.append(line)
+    if buf is not None:
+        out.append((label, tlaval.parse_state(''.join(buf))))
+    return out
+
+
+def _sim_chunk(files):
+    import logging
+    logging.disable(logging.CRITICAL)
+    out, devs, steps = [], set(), 0
+    for f in files:
+        beh = _parse_sim_file(f)
+        if not beh:
+            continue
+        nodes = {i: st for i, (_, st) in enumerate(beh)}
+        path = [(beh[i][0], i) for i in range(1, len(beh))]
+        steps += len(path)
+        devs |= set(beh[-1][1]['S']['dev'])
+        r = core_replay.replay_path(_G['progs'], _G['plans'], nodes, 0, path, _G.get('run_kw'))
+        if r:
+            S0 = nodes[0]['S']
+            r['path'] = [a for a, _ in path]
+            r['prog'] = _G['progs'][S0['pi'] - 1]
+            r['plan'] = _G['plans'][S0['pl'] - 1]
+            out.append(r)
+    return out, sorted(devs), steps, len(files)
+
+
+def simulate_replay(name, progs, plans, alphabet, k, depth=40, num=800, seed=0, invariants=(), extra_defs='', fixes=FIXES, overrides=(),
+                    base='ProcessProps', spec='Spec', run_kw=None, workers=8, tlc_only=False, sim=None):
+    """Random behaviours far beyond the exhaustive bounds (TLC simulation mode, invariants evaluated on the way), each one
+    replayed into the real Process with the comparison after every action.  -> dict"""
+    if sim is None:
+        sim = simulate_dump(name, progs, plans, alphabet, k, depth=depth, num=num, seed=seed, invariants=invariants, extra_defs=extra_defs,
+                            fixes=fixes, overrides=overrides, base=base, spec=spec, workers=workers)
+    wd, res = sim['wd'], sim['res']
+    t1 = time.time()
+    try:
+        files = sorted(os.path.join(wd.path, 'tr', f) for f in os.listdir(os.path.join(wd.path, 'tr')))
+        _G.update(progs=progs, plans=sim['plans'], run_kw=run_kw)
+        n = max(1, len(files) // 32)
+        jobs = [files[i:i + n] for i in range(0, len(files), n)]
+        divergent, devs, steps, nb = [], set(), 0, 0
+        if files:
+            ctx = multiprocessing.get_context('fork')
+            with ctx.Pool(min(16, os.cpu_count() or 1)) as pool:
+                for out, d, st, nf in pool.imap_unordered(_sim_chunk, jobs):
+                    divergent.extend(out)
+                    devs |= set(d)
+                    steps += st
+                    nb += nf
+    finally:
+        _G.clear()
+        wd.cleanup()
+    return {'behaviours': nb, 'steps': steps, 'divergent': divergent, 'devs': devs, 'tlc_s': sim['tlc_s'], 'replay_s': time.time() - t1,
+            'violated': res.violated, 'res': res, 'depth': depth, 'K': k}
+
+
+def simulate_dump(name, progs, plans, alphabet, k, depth=40, num=800, seed=0, invariants=(), extra_defs='', fixes=FIXES, overrides=(),
+                  base='ProcessProps', spec='Spec', workers=8, run_kw=None):
+    plans = [list(p) for p in plans]
+    cfgx = ''.join('INVARIANT %s\n' % i for i in invariants)
+    tla, cfg = core_model.mc_module('MC_' + name, progs, plans, fixes, alphabet, k, base=base, cfg_extra=cfgx, extra_defs=extra_defs,
+                                    overrides=overrides, spec=spec)
+    t0 = time.time()
+    wd = tlc.Workdir()
+    try:
+        wd.write('MC_%s.tla' % name, tla)
+        wd.write('MC_%s.cfg' % name, cfg)
+        tr = wd.sub('tr')
+        per = max(1, num // workers)
+        res = tlc.run(wd, 'MC_%s.tla' % name, 'MC_%s.cfg' % name, workers=workers,
+                      args=['-simulate', 'file=%s/b,num=%d' % (tr, per), '-depth', str(depth), '-seed', str(seed + 1)])
+    except BaseException:
+        wd.cleanup()
+        raise
+    return {'wd': wd, 'res': res, 'tlc_s': time.time() - t0, 'plans': plans}
+
+
 def model_check(name, progs, plans, alphabet, k, invariants=(), properties=(), extra_defs='', view=False, fixes=FIXES,
                 timeout=3000, overrides=(), base='ProcessProps', spec='Spec', workers=None):
     cfgx = ''.join('INVARIANT %s\n' % i for i in invariants) + ''.join('PROPERTY %s\n' % i for i in properties)
@@ -143,9 +244,26 @@ def write_replay(pid, kind, payload):
     return path
 
 
+def default_sims(tier, seed, mc_runs, replay_runs):
+    """Deep random behaviours for (at most three of) the replay configurations: same family, a request budget far beyond the
+    exhaustive bound, the invariants of the model-checking run of the same name."""
+    inv = {m['name']: list(m.get('invariants', ())) for m in mc_runs}
+    sims = []
+    for r in [r for r in replay_runs if (r.get('run_kw') or {}).get('medium') != 'none'][:3]:
+        # (a raw bundle may be loaded once only: the loaded process shares its mutable values, see DESIGN.md section 6)
+        s = {k: v for k, v in r.items() if k in ('progs', 'plans', 'alphabet', 'extra_defs', 'overrides', 'base', 'spec', 'run_kw', 'fixes')}
+        s.update(name=r['name'] + '_sim', k=r['k'] + (6 if tier == 'quick' else 12), depth=50 if tier == 'quick' else 90,
+                 num=480 if tier == 'quick' else 8000, seed=seed * 1000 + len(sims), invariants=inv.get(r['name'], []))
+        sims.append(s)
+    return sims
+
+
 def run_check(pid, tier, seed, mc_runs, replay_runs, level_text, assumptions, rule, level='model_checking', extra_cov=None,
-              extra_violations=0, suite_traces=None):
-    """mc_runs: list of dicts for model_check; replay_runs: list of dicts for graph_replay."""
+              extra_violations=0, suite_traces=None, sim_runs=None):
+    """mc_runs: list of dicts for model_check; replay_runs: list of dicts for graph_replay; sim_runs: for simulate_replay
+    (default: derived from the replay configurations)."""
+    if sim_runs is None:
+        sim_runs = default_sims(tier, seed, mc_runs, replay_runs)
     t0 = time.time()
     violations = 0
     states = transitions = 0
@@ -158,12 +276,13 @@ def run_check(pid, tier, seed, mc_runs, replay_runs, level_text, assumptions, ru
     wk = None if par <= 1 else max(2, (os.cpu_count() or 4) // par)
     mc_f = [pool.submit(model_check, workers=wk, **m) for m in mc_runs]
     dump_f = [pool.submit(graph_dump, workers=wk, **r) for r in replay_runs] if par > 1 else None
+    sim_f = [pool.submit(simulate_dump, workers=min(8, wk or 8), **{k: v for k, v in r.items() if k != 'run_kw'}) for r in sim_runs] if par > 1 else None
     suite_f = None
     if suite_traces is not None and par > 1:
         from . import obs_trace
         suite_f = pool.submit(obs_trace.run_stage, suite_traces)
     def abandon():           # a machinery failure: leave no scratch directory behind
-        for f in dump_f or []:
+        for f in (dump_f or []) + (sim_f or []):
             try:
                 f.result()['wd'].cleanup()
             except BaseException:  # noqa
@@ -198,12 +317,10 @@ def run_check(pid, tier, seed, mc_runs, replay_runs, level_text, assumptions, ru
     dumps = [None] * len(replay_runs)
     if dump_f is not None:
         import concurrent.futures as cf
-        cf.wait(dump_f + ([suite_f] if suite_f is not None else []))       # (no thread is left running when the replay pools fork)
-        err = [f.exception() for f in dump_f if f.exception() is not None]
+        cf.wait(dump_f + sim_f + ([suite_f] if suite_f is not None else []))       # (no thread is left running when the replay pools fork)
+        err = [f.exception() for f in dump_f + sim_f if f.exception() is not None]
         if err:
-            for f in dump_f:
-                if f.exception() is None:
-                    f.result()['wd'].cleanup()
+            abandon()
             raise err[0]
         dumps = [f.result() for f in dump_f]
     pool.shutdown(wait=True)
@@ -222,6 +339,31 @@ def run_check(pid, tier, seed, mc_runs, replay_runs, level_text, assumptions, ru
                                                     'run_kw': r.get('run_kw') or {},
                                                     'fixes': FIXES, 'actions': d['path'], 'at': d['at'], 'diffs': d['diffs']})
             print('DIVERGENCE program=%s plan=%s after %s: %s' % (d['prog']['name'], d['plan'], d['path'][:d['at']], d['diffs'][:3]))
+            print('VIOLATION property=%s replay=%s' % (pid, path))
+        violations += len(g['divergent'])
+    sim_summ = []
+    for i, r in enumerate(sim_runs):
+        g = simulate_replay(sim=sim_f[i].result() if sim_f is not None else None, **r)
+        replayed += g['behaviours']
+        nontrivial += g['behaviours']
+        devs |= g['devs']
+        sim_summ.append({'instance': r['name'], 'K': r['k'], 'depth': r['depth'], 'seed': r['seed'], 'behaviours_replayed': g['behaviours'],
+                         'steps': g['steps'], 'divergent': len(g['divergent']), 'invariants': list(r.get('invariants', ())),
+                         'tlc_s': round(g['tlc_s'], 1), 'replay_s': round(g['replay_s'], 1)})
+        if g['violated']:
+            tr = g['res'].trace()
+            path = write_replay(pid, 'tlc', {'kind': 'tlc-counterexample (simulation)', 'violated': g['violated'], 'instance': r['name'],
+                                             'trace': [{'action': a, 'state': s} for a, s in tr]})
+            print('TLC: %s violated in %s (simulation); behaviour: %s' % (g['violated'], r['name'], [a for a, _ in tr][1:]))
+            print('VIOLATION property=%s replay=%s' % (pid, path))
+            violations += 1
+        elif not g['res'].ok:
+            raise tlc.MachineryError('TLC simulation did not complete on %s:\n%s' % (r['name'], g['res'].out[-3000:]))
+        for d in g['divergent'][:5]:
+            path = write_replay(pid, 'divergence', {'kind': 'replay-divergence', 'program': d['prog'], 'plan': d['plan'],
+                                                    'run_kw': r.get('run_kw') or {},
+                                                    'fixes': FIXES, 'actions': d['path'], 'at': d['at'], 'diffs': d['diffs']})
+            print('DIVERGENCE (simulated behaviour) program=%s plan=%s after %s: %s' % (d['prog']['name'], d['plan'], d['path'][:d['at']], d['diffs'][:3]))
             print('VIOLATION property=%s replay=%s' % (pid, path))
         violations += len(g['divergent'])
     suite = None
@@ -245,7 +387,7 @@ def run_check(pid, tier, seed, mc_runs, replay_runs, level_text, assumptions, ru
         'rule': rule + '; non-trivial = a replayed behaviour with at least one environment request, re-entrant call or injected fault '
                        '(behaviours are distinct maximal paths of the state graph)',
         'exhaustive': True,
-        'model_checking': mc_summ, 'replay': rp_summ, 'deviation_clauses_exercised': sorted(devs),
+        'model_checking': mc_summ, 'replay': rp_summ, 'simulation': sim_summ, 'deviation_clauses_exercised': sorted(devs),
         'fixes_modelled': FIXES,
     }
     if suite is not None:
